@@ -11,6 +11,15 @@ CHECKS = {
  "C03": ("exploration", "proptest generation + differential against a reference codec interpreting an independent layout table (both directions), plus captured blobs",
          "Bytes assembled by an independent reference codec from a hand-written layout table must decode into exactly the named fields (compared through Debug) with nothing left, and the repository must re-encode them to the identical bytes, for generated canonical values of all 55 types; the 24 captured packets are read by both decoders.",
          "Trusted: harness/src/layouts.tbl (transcribed from the ZVT / Feig specification, cross-checked against the captured blobs) and harness/src/refc.rs. A layout error shared by table and code is invisible.", "7/C03"),
+ "C13": ("exploration", "proptest-generated canonical values x enumerated edits of the reference encoder's group list (permutations, duplicates, removals, foreign tags) at every nesting level",
+         "For every shipped type with tagged fields and generated canonical values, the tagged groups are permuted (all permutations up to 4/6 groups, sampled above), duplicated to every position, mandatory ones removed in every subset, and a tag unknown to the whole packet tree inserted at every gap, at the top level and inside every nested container; the decoder must return the same value, DuplicateTag(t), MissingRequiredTags(all, ascending), or error / exact prefix value + untouched remainder respectively.",
+         "Trusted: reference encoder's grouping (tree.rs) and reference decoder for the prefix value. Inside Vec elements the documented 'failure = end of vector' rule weakens the oracle to the prefix predicate. Generated (lab) structs are covered by C12.", "7/C13"),
+ "C14": ("exploration", "proptest-generated canonical values x metamorphic relations (suffix invariance, foreign data behind containers, shortened length announcements vs reference decoder)",
+         "R1: all 31 commands x generated values x suffixes (every single byte, a valid packet, random bytes): decode returns the same value and exactly the suffix. R2: foreign data behind every nested container. R3: every length-prefixed container and the APDU re-announced 1..3 bytes shorter must give an error or exactly the reference reading of the announced bytes.",
+         "Trusted: reference decoder (refc.rs) as the reading of 'only the announced bytes'; R3 gives no verdict where the reference rejects the input.", "7/C14"),
+ "C15": ("exploration", "exhaustive enumeration of all 65 536 control fields per reply parser against an independent reply-set table, differential with the variant's own packet decoder",
+         "All 17 reply parsers x all 65 536 (class, instr) pairs x bodies {empty, canonical bodies of every variant's packet type, random}: a pair outside the independent reply-set table must be an error; an owned pair must produce exactly the variant named by the table with the content (or error) its own packet type yields for the same bytes. The control-field space is finite and enumerated completely.",
+         "Trusted: registry::enum_table() (hand-written from ZVT chapter 2 reply sets, DESIGN.md Appendix B).", "7/C15"),
  "C16": ("exploration", "exhaustive enumeration against independent reference length functions (property-based, no sampling)",
          "Every representable length of every prefix style (Tlv/Adpu 0..65535, Llv 0..99, Lllv 0..999, Fixed<1..17>) with trailing data, and every byte string of length <= 3 through each parser, is compared with independently written reference prefix functions. The space the property quantifies over is finite and is enumerated completely, so exploration here is exhaustive.",
          "Trusted: the reference prefix functions in harness/src/props/c16.rs (BER-TLV / ZVT APDU / LLVAR rules). Lengths above a style's range are outside the property.", "7/C16"),
